@@ -31,7 +31,7 @@ ELEMENTWISE = {sp.exp: np.exp, sp.log: np.log, sp.cos: np.cos, sp.sin: np.sin, s
 STRUCT = {"item", "store", "roll", "diff", "where", "ite", "lt", "ge", "eq", "ne", "and_", "or_", "not_", "slc", "empty", "zeros",
           "ones", "full", "shape", "len", "sum", "nansum", "mean", "nanmean", "max", "min", "maximum", "minimum", "isfinite",
           "isnan", "isnull", "pymod", "wrapdiff", "arange", "linspace", "clip", "cumsum", "array", "expand_dims", "reshape",
-          "tabulate", "loopsum", "range", "abs", "argmax", "argmin", "prod", "all", "any", "never", "floordiv", "list", "seqcat"}
+          "tabulate", "loopsum", "range", "abs", "argmax", "argmin", "prod", "all", "any", "never", "floordiv", "list", "seqcat", "concatenate"}
 
 
 class Eval:
@@ -118,6 +118,17 @@ class Eval:
             return len(self.ev(a[0]))
         if f == "roll":
             return np.roll(self.ev(a[0]), int(self.ev(a[1])))
+        if f == "concatenate":
+            pieces = a[0].args if isinstance(a[0], sp.Tuple) else [a[0]]
+            vals = []
+            for pc in pieces:
+                v = np.atleast_1d(np.asarray([self.ev(x) for x in pc.args], dtype=float)) if isinstance(pc, sp.Tuple) \
+                    else np.asarray(self.ev(pc), dtype=float)
+                if v.ndim == 0:
+                    raise Unsupported("concatenate of a scalar")
+                vals.append(v)
+            ax = int(self.ev(a[1])) if len(a) > 1 and a[1] != T.NONE_T else 0
+            return np.concatenate(vals, axis=ax)
         if f == "diff":
             kw = {}
             if a[1] != T.NONE_T:
